@@ -49,6 +49,15 @@ def _get_all_lindblad_noise_operators(
     ]
 
 
+def _square_interaction_matrix(matrix: torch.Tensor) -> torch.Tensor:
+    """
+    Recent pulser-core versions stack the interaction matrices in a tensor
+    of shape (k, N, N). The first slice holds the coefficients of the
+    interaction emulated here (C6 for ising, C3 for XY).
+    """
+    return matrix[0] if matrix.ndim == 3 else matrix
+
+
 def _unique_observable_times(
     config: EmulationConfig,
 ) -> set[float]:
@@ -264,11 +273,13 @@ class PulserData:
 
         self.full_interaction_matrix = None
         if config.interaction_matrix is not None:
-            assert len(config.interaction_matrix) == self.qubit_count, (
+            self.full_interaction_matrix = _square_interaction_matrix(
+                config.interaction_matrix.as_tensor()
+            )
+            assert len(self.full_interaction_matrix) == self.qubit_count, (
                 "The number of qubits in the register should be the same as the size of "
                 "the interaction matrix"
             )
-            self.full_interaction_matrix = config.interaction_matrix.as_tensor()
 
         self.interaction_cutoff = config.interaction_cutoff
         self.slm_end_time = (
@@ -280,7 +291,9 @@ class PulserData:
             full_interaction_matrix = (
                 self.full_interaction_matrix
                 if self.full_interaction_matrix is not None
-                else samples.trajectory.interaction_matrix.as_tensor()
+                else _square_interaction_matrix(
+                    samples.trajectory.interaction_matrix.as_tensor()
+                )
             )
 
             full_interaction_matrix = full_interaction_matrix.clone()
